@@ -62,6 +62,7 @@ package fn
 //@   loop 0 invariant forall(k, 1, j, xs.at(k) < x)
 
 //@ func Piecewise(x, xs, ys) returns (y, err)
+//@   canary [C18.canary-piecewise] y == x
 //@   safety C18
 //@   requires xs.len >= 2 && ys.len == xs.len
 //@   requires forall(a, 0, xs.len, forall(b, 0, xs.len, implies(a < b, xs.at(a) < xs.at(b))))
